@@ -183,4 +183,50 @@ pub fn run(ctx: &mut Ctx) {
     }
     ctx.rec.note("grid_size", &grid.to_string());
     ctx.rec.checkpoint();
+    // beyond the exhaustive grid: deep stacks (up to 60) with random indices around the depth
+    let nrand = ctx.n(20000, 400000);
+    for k in 0..nrand as u64 {
+        case += 1;
+        if !ctx.mine(case) {
+            continue;
+        }
+        let mut r = Rng::derive(ctx.seed, &[5, 99, k]);
+        let (tn, t) = TYPES[r.below(9)];
+        let op = OPS[r.below(OPS.len())];
+        let name = format!("{}.{}", tn, op);
+        if !names.contains(&name) {
+            continue;
+        }
+        // heavy tail: mostly 8..60, sometimes up to 300
+        let d = if r.chance(1, 5) { 60 + r.below(241) } else { 8 + r.below(53) };
+        let idx: i32 = match r.below(6) {
+            0 => d as i32 - 1,
+            1 => d as i32,
+            2 => d as i32 - 2,
+            3 => *r.pick(&[i32::MIN, -1, 0, 1, i32::MAX]),
+            _ => r.below(d + 2) as i32,
+        };
+        let mut s = Snap::empty();
+        let hot = r.below(d);
+        fill(&mut s, t, d, hot);
+        if t == St::Bool {
+            // several TRUEs: still identifies positions pairwise with the one-hot run above
+            for j in 0..d {
+                if r.chance(1, 3) {
+                    s.b[j] = !s.b[j];
+                }
+            }
+        }
+        if takes_index(op) {
+            s.i.insert(0, idx);
+        }
+        let mut st = build_state(&s);
+        ctx.rec.case_marker(case, &name);
+        let ev = judged_step("C05", &name, &mut st, &mut is, &cache, &mut ctx.rec, judge, &format!("deep: depth={} index={}", d, idx));
+        ctx.rec.count("steps", 1);
+        ctx.rec.count("deep_cases", 1);
+        ctx.rec.cover(&format!("deep|{}|d{}|{}", name, (d / 8).min(12), if idx < 0 { "neg" } else if (idx as usize) < d { "in" } else { "beyond" }));
+        let _ = ev;
+    }
+    ctx.rec.checkpoint();
 }
